@@ -8,6 +8,8 @@ HOSTILE = ["", "a", "ab", "abc", "b", "ba", "\n", "a\n", "a\nb", "\r\n", "\t", "
 PLAIN = ["", "a", "ab", "abc", "b", "ba", "0", "7", "12", "007", "42", "aa", "x y", "abab", "c"]
 NUMERALS = ["0", "7", "12", "007", "42", "100", "9"]
 SIGNED = ["-5", "+3", "-0", "-12"]
+BIG_NUMERALS = ["9007199254740992", "9007199254740993", "18014398509481985", "36028797018963969", "18446744073709551617",
+                "123456789012345678901234567890"]
 INTS = [-7, -3, -1, 0, 1, 2, 3, 5, 10, 97, 100000]  # no values >= 2^31: z3 4.11 simplify segfaults on huge string indices
 
 
@@ -106,6 +108,13 @@ class Gen:
     def B(self, d, top=False):
         r = self.rng
         x = r.random()
+        if r.random() < 0.03:
+            # numerals beyond 2^53 (and beyond 64 bit): exact integer reading, compared with a neighbouring constant
+            n = r.choice(BIG_NUMERALS)
+            lhs = ("str.to.int", "I", [("sconst", "S", [], n)], None)
+            if r.random() < 0.3:
+                lhs = (r.choice(["+", "-"]), "I", [lhs, ("iconst", "I", [], r.choice([0, 1, 2]))], None)
+            return (r.choice(["=", "=", "<", "<=", ">", ">="]), "B", [lhs, ("iconst", "I", [], int(n) + r.choice([-2, -1, 0, 0, 1, 2]))], None)
         if x < 0.22:
             return ("str.in_re", "B", [self.S(d - 1), self.R(d)], None)
         if x < 0.36:
